@@ -190,4 +190,73 @@ CHECKS = {
             'empty batches are tolerated (the client loop just asks again)'],
         'probes': ['probe:reinit_with_request_in_flight'],
     },
+    'C16': {
+        'families': [['c16:dist', 1.0]],
+        'runs': {'quick': 4000, 'thorough': 200000},
+        'budget': {'quick': 110, 'thorough': 1500},
+        'level': 'exploration',
+        'rule': ('each evaluation draws a pipeline from the operator grammar and a dataset, runs it in process '
+                 '(reference) and then over 1-3 real PrefetchedCourierServer workers plus a host server on the '
+                 'simulated network: sharded_pipelines_as_iterator with 1-5 shards (result through the result '
+                 'queue and the compute_result thread) or run_pipeline_interleaved with a worker pool, a master '
+                 'server and remote queues; iterate batch size, prefetch size, buffer size and message latencies '
+                 'drawn; a third mode checks the strict state count of merge_states on both runner classes. '
+                 'Non-trivial = more than ten context switches (or the strict-count mode); distinct = digests'),
+        'real': REAL_COMMON + ['asyncio core', 'ml_metrics orchestrate/courier_worker/courier_server/courier_utils'],
+        'stub': STUB_COMMON + ['courier.Server/Client -> fakes/courier (in-process transport: by-value arguments, one handler thread per request, wait_for_ready, DEADLINE_EXCEEDED = code 4, no cancellation of handlers; fault policy per call; node kill = partition for ever)', 'asyncio selector/self-pipe/clock -> simkit.aioloop.SimEventLoop'],
+        'assumptions': ASSUME_COMMON + [
+            'no call deadline is configured in the fault-free runs (call_timeout=0), so that slow simulated '
+            'schedules cannot turn into spurious retries',
+            'rows are the unit of comparison for pipelines with a re-batching operator',
+            'all simulated nodes share one interpreter (registry, caches), as in the upstream tests'],
+        'probes': [],
+    },
+    'C06': {
+        'families': [['c06:tasks', 1.0], ['c06:shards', 1.0]],
+        'runs': {'quick': 5000, 'thorough': 250000},
+        'budget': {'quick': 115, 'thorough': 1500},
+        'level': 'fault_enumeration',
+        'rule': ('each evaluation runs as_completed (1-6 tasks) or sharded_pipelines_as_iterator (1-6 shards, exact '
+                 'integer aggregate) over 1-4 real workers with a fault plan of 0-3 faults placed by (worker, method, '
+                 'n-th call): request dropped, reply dropped, reply delayed past the deadline, slow handler, death on '
+                 'arrival, death after the work, death + restart after a delay; optionally an application error in '
+                 'one task/shard and a clock jump; call timeout, heartbeat threshold and retry threshold drawn. The '
+                 'outcome is judged by the clause its fired faults allow (scenarios/c06.py: classify). Non-trivial = '
+                 'at least one fault fired; distinct = distinct event-log digests'),
+        'real': REAL_COMMON + ['asyncio core', 'ml_metrics orchestrate/courier_worker/courier_server/courier_utils'],
+        'stub': STUB_COMMON + ['courier.Server/Client -> fakes/courier (in-process transport: by-value arguments, one handler thread per request, wait_for_ready, DEADLINE_EXCEEDED = code 4, no cancellation of handlers; fault policy per call; node kill = partition for ever)', 'asyncio selector/self-pipe/clock -> simkit.aioloop.SimEventLoop'],
+        'assumptions': ASSUME_COMMON + [
+            'success (every result exactly once / aggregate equal to the in-process run / every batch at least once) is '
+            'demanded only when a worker is usable at the end (every kill of it was followed by a restart), no clock '
+            'jump was injected, and the retry threshold is either practically infinite or no worker died and the number '
+            'of timeout-inducing faults does not exceed it; otherwise any error is accepted but a silently wrong result '
+            'is still a violation',
+            'a dead worker is a node partitioned for ever (its threads keep running but nothing they send arrives)',
+            'bounded liveness: with a usable worker the driver must return within 1500 simulated seconds after the '
+            'last fault or restart'],
+        'probes': ['probe:retry_after_deadline', 'probe:worker_death', 'probe:worker_restarted',
+                   'probe:work_done_but_reply_late'],
+    },
+    'C20': {
+        'families': [['c20:registry', 1.0], ['c20:ownership', 1.0], ['c20:poolops', 0.5], ['c20:distrelease', 0.35]],
+        'runs': {'quick': 24000, 'thorough': 1200000},
+        'budget': {'quick': 110, 'thorough': 1500},
+        'level': 'exploration',
+        'rule': ('registry: 2-4 threads issue register / refresh (fresh, stale, far-future) / unregister / heartbeat '
+                 'handler calls / is_alive / clock jumps against the real WorkerRegistry with step invariants evaluated '
+                 'at every scheduling point (heartbeat never decreases, a dead worker only comes back through a '
+                 'register); ownership: 2-3 pools (one of them sometimes driven by two threads) acquire and release 1-3 '
+                 'shared Worker objects through acquire_by, _acquire_all, next_idle_worker, release_all; poolops: '
+                 'WorkerPool.run / call_and_wait against real servers with tasks that return or raise; distrelease: the '
+                 'fault-free sharded / interleaved drivers of C16, judged only on workers being released. 60% of the '
+                 'registry/ownership runs use function-entry pre-emption. Non-trivial = more than two context '
+                 'switches; distinct = distinct event-log digests'),
+        'real': REAL_COMMON + ['ml_metrics WorkerRegistry, CourierClient.is_alive, Worker, WorkerPool, CourierServer._heartbeat'],
+        'stub': STUB_COMMON + ['courier.Server/Client -> fakes/courier (in-process transport: by-value arguments, one handler thread per request, wait_for_ready, DEADLINE_EXCEEDED = code 4, no cancellation of handlers; fault policy per call; node kill = partition for ever)', 'asyncio selector/self-pipe/clock -> simkit.aioloop.SimEventLoop'],
+        'assumptions': ASSUME_COMMON + [
+            'ownership beliefs of a pool driven by two threads are not used as an oracle (its threads may release each other\'s workers)',
+            'liveness is checked as: with the recorded heartbeat unchanged during the call, is_alive equals (t - h < '
+            'threshold) for the call\'s start or end instant'],
+        'probes': [],
+    },
 }
